@@ -1454,6 +1454,19 @@ def fold_cases(ctx, prop, rows=None):
         for top in ("val", "ptr"):
             cases.append(case(prop, "fold", "go", sub=dict(T=UT, V=uv, top=top), origin="field identifiers with non-ASCII upper-case letters"))
         cases.append(case(prop, "fold", "go", sub=dict(T=dict(k="slice", e=[UT]), V=dict(k="slice", e=[uv, uv]), top="val"), origin="field identifiers with non-ASCII upper-case letters, in a slice"))
+    # a field whose static type is a NON-EMPTY interface (the library's own gotype.Folder): nil folds as null, a value as
+    # its folder emits it
+    FI = dict(k="iface", id="folder")
+    FT = dict(k="named", id="FoldT")
+    fv = dict(k="iface", dyn=[FT], e=[dict(k="struct", f=[Iv(1)])])
+    for tF, vF, org in ((FI, dict(k="iface", nil=True), "nil"), (FI, fv, "value")):
+        for opts in ([], ["omitempty"]):
+            T = dict(k="struct", f=[dict(name="A", tname="", opts=[], t=dict(k="int")), dict(name="F", tname="", opts=list(opts), t=tF)])
+            V = dict(k="struct", f=[Iv(1), vF])
+            for top in ("val", "ptr"):
+                cases.append(case(prop, "fold", "go", sub=dict(T=T, V=V, top=top), origin="field of a non-empty interface type, " + org))
+        cases.append(case(prop, "fold", "go", sub=dict(T=dict(k="slice", e=[tF]), V=dict(k="slice", e=[vF, vF]), top="val"), origin="slice of a non-empty interface type, " + org))
+        cases.append(case(prop, "fold", "go", sub=dict(T=dict(k="map", e=[tF]), V=dict(k="map", m=[dict(key=list(b"k"), val=vF)]), top="val"), origin="map of a non-empty interface type, " + org))
     return cases
 
 
@@ -1659,6 +1672,16 @@ def c11(ctx):
             cases.append(case("C11", "gort", "go", sub=dict(T=dict(k="slice", e=[RT]), V=dict(k="slice", e=[val, val]), via=via), origin="recursive type in a slice"))
             cases.append(case("C11", "gort", "go", sub=dict(T=dict(k="struct", f=[dict(name="P", tname="", opts=[], t=dict(k="ptr", e=[RT])), dict(name="Q", tname="", opts=[], t=dict(k="int"))]),
                                                                V=dict(k="struct", f=[dict(k="ptr", e=[val]), I(1)]), via=via), origin="recursive type behind a field"))
+    # targets holding a NON-EMPTY interface type (gotype.Folder): nothing the unfolder builds implements it - refused when the
+    # target is set, never stored as if it were interface{}
+    FI = dict(k="iface", id="folder")
+    for org, vF in (("nil", dict(k="iface", nil=True)), ("value", dict(k="iface", dyn=[dict(k="named", id="FoldT")], e=[dict(k="struct", f=[I(1)])]))):
+        for T, V in ((dict(k="struct", f=[dict(name="A", tname="", opts=[], t=dict(k="int")), dict(name="F", tname="", opts=[], t=FI)]), dict(k="struct", f=[I(1), vF])),
+                     (dict(k="slice", e=[FI]), dict(k="slice", e=[vF, vF])),
+                     (dict(k="map", e=[FI]), dict(k="map", m=[dict(key=list(b"k"), val=vF)])),
+                     (dict(k="struct", f=[dict(name="P", tname="", opts=[], t=dict(k="ptr", e=[FI]))]), dict(k="struct", f=[dict(k="ptr", e=[vF])]))):
+            for via in ("direct", "json", "cborl"):
+                cases.append(case("C11", "gort", "go", sub=dict(T=T, V=V, via=via), origin="target with a non-empty interface type, " + org))
     # histories of refused and supported self-referential types through ONE iterator / ONE unfolder (their registries
     # keep what earlier operations compiled): every shape over the type, in every order of two, with supported controls
     def N(tid):
